@@ -28,7 +28,7 @@ func init() {
 		NotDecided: "x509 verification and certificate generation internals (trusted).",
 		Run:        runC32})
 	register(&propDef{ID: "C33", Level: "other",
-		Decides:    "Normalize returns exactly the value it tested with nonDnsRegex, and that regex (parsed with regexp/syntax) is the complement of [a-z0-9.-], so every successful output is over that alphabet; the wildcard and public-certificate-eligibility rejections are applied on every successful path; the challenge target depends on the token only through hex(SHA-224(token)).",
+		Decides:    "Normalize returns exactly the value it tested with nonDnsRegex, and that regex (parsed with regexp/syntax) is the complement of [a-z0-9.-], so every successful output is over that alphabet; the wildcard, IP-literal and public-certificate-eligibility rejections are applied on every successful path, and the ASCII conversion is the non-mapping idna.ToASCII (a mapping profile would turn fullwidth/ideographic spellings of local names and IPs into accepted outputs after the checks ran); the challenge target depends on the token only through hex(SHA-224(token)).",
 		NotDecided: "idempotence and the rejection of IPs/local names (certmagic / idna library behaviour); collision resistance of SHA-224 (trusted).",
 		Run:        runC33})
 
@@ -65,6 +65,7 @@ func init() {
 	addSelfTests("C33",
 		mutation{"regex-allows-upper", "spec/acme/acme.go", "`[^a-z0-9-.]+`", "`[^a-zA-Z0-9-.]+`", "alphabet"},
 		mutation{"returns-untested-value", "spec/acme/acme.go", "	return uni, nil\n}", "	return trimmed, nil\n}", "normalize"},
+		mutation{"ip-literal-allowed", "spec/acme/acme.go", "	if certmagic.SubjectIsIP(trimmed) {", "	if certmagic.SubjectIsIP(trimmed) && strings.Contains(trimmed, \":\") {", "normalize"},
 		mutation{"wildcard-allowed", "spec/acme/acme.go", "	if strings.Contains(trimmed, \"*\") {\n		return \"\", fmt.Errorf(\"acme: wildcard zone is not supported\")\n	}\n", "", "normalize"},
 		mutation{"token-not-hashed", "spec/acme/acme.go", "	return generateRecord(zone, delegation, EncodeClientToken(token))", "	return generateRecord(zone, delegation, hex.EncodeToString(token[:4]))", "challenge"},
 	)
@@ -417,7 +418,8 @@ func runC28(c *Ctx) {
 		}
 	}
 	if cmpLit == nil {
-		c.Failf("routeCacheLoader: sort comparator literal not found (undecided)")
+		c.Ob("comparator", "routes#sorted-by-locality", ld.Decl.Pos(), false, "the routes are put in local-first order by a stable sort with a comparator literal; no such sort was found (another reordering idiom is undecided: e.g. moving only the first local route forward leaves a second local route behind a remote one)")
+		return
 	}
 	g := ld.Closure(cmpLit)
 	type val2 struct{ li, lj bool }
@@ -897,7 +899,7 @@ func runC33(c *Ctx) {
 			tested = nz.Prov(call.Args[0])
 		}
 		c.Ob("normalize", "Normalize#returns-the-tested-value", r.Pos(), tested != "" && ret == tested, fmt.Sprintf("the value returned (%s) is the value tested against the alphabet (%s)", ret, tested))
-		requireAt(c, "normalize", "Normalize#success", nz, r, "a hostname is accepted only if it qualifies for a public certificate, has no wildcard, converts to ASCII and has no character outside the alphabet",
+		requireAt(c, "normalize", "Normalize#success", nz, r, "a hostname is accepted only if it qualifies for a public certificate (certmagic: rejects internal/loopback names and addresses), has no wildcard, is not an IP literal (certmagic lets public IP literals through), converts to ASCII and has no character outside the alphabet",
 			factReq{"SubjectQualifiesForPublicCert", func(g *Fn, fs *FactSet) bool {
 				return fs.Has(func(fa *Fact) bool {
 					return fa.Kind == FTrue && g.IsCall(fa.Call, "github.com/caddyserver/certmagic.SubjectQualifiesForPublicCert")
@@ -912,12 +914,41 @@ func runC33(c *Ctx) {
 					return v == "\"*\""
 				})
 			}},
+			factReq{"not an IP literal", func(g *Fn, fs *FactSet) bool {
+				return fs.Has(func(fa *Fact) bool {
+					if fa.Kind == FFalse && g.IsCall(fa.Call, "github.com/caddyserver/certmagic.SubjectIsIP") {
+						return true
+					}
+					return fa.Kind == FNil && g.IsCall(fa.Call, "net.ParseIP")
+				}) || fs.Cmp(func(e, tag ast.Expr, truth bool, fa *Fact) bool {
+					be, ok := e.(*ast.BinaryExpr)
+					if !ok || tag != nil {
+						return false
+					}
+					call, ok := ast.Unparen(be.X).(*ast.CallExpr)
+					return ok && g.IsCall(call, "net.ParseIP") && isNilIdent(g.Info, be.Y) && ((be.Op == token.NEQ && !truth) || (be.Op == token.EQL && truth))
+				})
+			}},
 			reqCallOK("golang.org/x/net/idna.ToASCII"),
 			factReq{"no invalid character", cmpFalse(func(g *Fn, be *ast.BinaryExpr) bool {
 				v, _ := g.ConstVal(be.Y)
 				return be.Op == token.GTR && v == "0" && isLenOf(g, be.X, func(e ast.Expr) bool { return strings.Contains(g.Prov(e), "nonDnsRegex.FindStringIndex()") })
 			})})
 	}
+	// the conversion must not map characters after the eligibility checks ran on the unmapped text
+	for _, call := range nz.Calls(false, func(call *ast.CallExpr) bool {
+		o := nz.Callee(call)
+		return o != nil && o.Pkg() != nil && o.Pkg().Path() == "golang.org/x/net/idna" && strings.HasPrefix(o.Name(), "ToASCII")
+	}) {
+		k := nz.CallKey(call)
+		recv := ""
+		if se, ok := call.Fun.(*ast.SelectorExpr); ok {
+			recv = nz.Prov(se.X)
+		}
+		okProfile := k == "golang.org/x/net/idna.ToASCII" || (k == "golang.org/x/net/idna.Profile.ToASCII" && strings.HasSuffix(recv, "idna.Punycode"))
+		c.Ob("normalize", "Normalize#non-mapping-idna-profile", call.Pos(), okProfile, "the eligibility checks run on the text before conversion, so the conversion must be the non-mapping Punycode profile (idna.ToASCII); found "+k+" on "+recv)
+	}
+
 	// challenge records
 	gcr := c.Func("spec/acme", "", "GenerateCustomRecord")
 	okTok := false
